@@ -81,7 +81,9 @@ class ConjPlugin(PrimitiveLeafPlugin):
         dtype = getattr(x_val, "dtype", None)
         complex_hint = (
             dtype in COMPLEX_DTYPES
-            or is_packed_complex_tensor(x_val)
+            # a (real, imag) pair layout only exists for values JAX knows as complex: a real
+            # tensor whose last dimension happens to be 2 is not one
+            or (is_packed_complex_tensor(x_val) and _is_complex_var(out_var))
             or _is_complex_var(x_var)
         )
 
